@@ -56,6 +56,12 @@ def rand_valid(rng, k):
         s["twist_cp"] = [float(x) for x in np.round(rng.uniform(-2, 2, 2), 2)]
         c["flow"] = dict(alpha=float(np.round(rng.uniform(0, 6), 2)), v=float(rng.uniform(60, 160)), rho=float(rng.uniform(0.3, 0.8)), Mach_number=0.6,
                          load_factor=float(rng.choice([1.0, 2.5])))
+    if kind in ("struct", "as") and rng.random() < 0.35:
+        # engines / stores as point masses with thrust
+        s["n_point_masses"] = 1
+        c["point_masses"] = [float(np.round(10 ** rng.uniform(1, 3), 1))]
+        c["point_mass_locations"] = [[float(np.round(rng.uniform(-0.5, 1.0), 2)), float(np.round(-rng.uniform(0.1, 0.45) * spec["span"], 2)), float(np.round(rng.uniform(-0.3, 0.3), 2))]]
+        c["engine_thrusts"] = [float(np.round(10 ** rng.uniform(2, 4), 1))]
     # documented option values at the ends of their ranges (fully turbulent / fully laminar boundary layer, zero offsets, projected area)
     s["k_lam"] = float(rng.choice([0.0, 0.05, 1.0, float(np.round(rng.random(), 2))]))
     s["CL0"] = float(rng.choice([0.0, float(np.round(rng.uniform(-0.2, 0.4), 3))]))
@@ -316,12 +322,14 @@ def build(c):
     if c["model"] == "multisec":
         return build_multisec(c)
     case = dict(surfaces=copy.deepcopy(c["surfaces"]), flow=c.get("flow", {}), compressible=c.get("compressible", False))
+    extra = {k: c[k] for k in ("point_masses", "point_mass_locations", "engine_thrusts") if k in c}
+    case.update(extra)
     if c["model"] == "aero":
         return zoo.build_aero(case, geom=False)
     if c["model"] == "aero_geom":
         return zoo.build_aero(case, geom=True)
     if c["model"] == "struct":
-        return zoo.build_struct(dict(surface=case["surfaces"][0], load_seed=c["seed"]))
+        return zoo.build_struct(dict(extra, surface=case["surfaces"][0], load_seed=c["seed"]))
     return zoo.build_as(case)
 
 
